@@ -2,5 +2,7 @@ import PynencModel.Props.C11
 open Pynenc.C11
 #print axioms stop_postcondition_partial
 #print axioms fuel_suffices
+#print axioms stop_postcondition_ended_threads
+#print axioms pruning_ended_threads_strands_them
 #print axioms stop_hangs_on_waiting_parent
 #print axioms kill_program_matches
